@@ -501,6 +501,10 @@ class Interp:
                 if o.kind == "circuit" and t.attr == "metadata":
                     o.meta["metadata"] = v
                     return
+                if o.kind == "circuit" and t.attr in ("data", "_data"):
+                    # the instruction list is replaced wholesale: what the circuit contains afterwards is not what was appended
+                    o.term = t_seq(o.term, ("unknown", f"instruction list of the circuit replaced by assignment to .{t.attr} at {pyfacts.where(fr.func, st)}"))
+                    return
                 if self.weak(o) and t.attr in o.fields:
                     o.fields[t.attr] = join(o.fields[t.attr], v)
                 else:
